@@ -121,7 +121,7 @@ TRUSTED = [
     "Coq primitive 63-bit integers are used only to write byte strings compactly in case files (Base/Packed.v)",
 ]
 ASSUMPTIONS = [
-    "ageing hook = clock advance: VerifShiftSessions(d) moves every stored ExpiresAt d into the past; the model's state is (now, table) and only differences ExpiresAt - now are ever inspected; every generated instant keeps >= 2.5 s from each expiry boundary (0 and the 10 min extension threshold), instants are compared with 1 s tolerance",
+    "ageing hook = clock advance: VerifShiftSessions(d) moves every stored ExpiresAt d into the past; the model's state is (now, table) and only differences ExpiresAt - now are ever inspected; every generated instant keeps >= 5 s from each expiry boundary (0 and the 10 min extension threshold), instants are compared with 3 s tolerance",
     "session ids drawn by crypto/rand.Text are fresh (the model takes the drawn id as an input of the login event; the lifecycle theorem itself holds for any choice)",
     "interpretation of cross-site fixed in DESIGN.md 5 C20: Origin set and Sec-Fetch-Site present and not same-origin/same-site/none, or OPTIONS with Origin; the code also refuses Origin + Sec-Fetch-Site: none (accepted by the checker as a 403 without effect)",
     "paths are driven in canonical form; the mux's path cleaning / escaping cannot bypass WrapHandler since the session check is inside every registered handler",
